@@ -2,25 +2,43 @@
   GV.Model.CbGuard — a minimal transcription of the pieces of compiler/prelude/goroutines.js that decide what
   happens when Go code blocks inside a JavaScript callback (`$curGoroutine === $noGoroutine`):
 
-    `$block`        goroutines.js:216-221   the guard: throws "cannot block in JavaScript callback, …"
-    `$send`         goroutines.js:229-257   enqueues its `$sendQueue` entry (:244-249) BEFORE calling `$block()` (:250)
-    `$recv`         goroutines.js:258-282   enqueues its `$recvQueue` entry (:279) BEFORE calling `$block()` (:280)
-    `$schedule`     goroutines.js:200-208   pushes the goroutine object on `$scheduled`
-    `$runScheduled` goroutines.js:174-198   `r = $scheduled.shift(); r();`
+    `$checkCanBlock` / `$block`   the guard: throws "cannot block in JavaScript callback, …"
+    `$send`         checks the guard BEFORE it pushes its `$sendQueue` entry, then `$block()`
+    `$recv`         checks the guard BEFORE it pushes its `$recvQueue` entry, then `$block()`
+    `$select`       ready cases / default first; checks the guard BEFORE it pushes one entry per case, then `$block()`
+    `$schedule`     pushes the goroutine object on `$scheduled` (and runs `$runScheduled` when called from a callback)
+    `$runScheduled` `r = $scheduled.shift(); r();`
 
-  One channel is enough for the witness.  Goroutine identities: `none` is `$noGoroutine` (a plain object, NOT a
-  function), `some g` a goroutine created by `$go`.  The full channel/scheduler model (with `$select`, `$close`,
-  timers) is C03's `GV.Model.Chan`; this file only keeps what the callback guard needs.
+  (This mirrors the code with fixes/C11-callback-guard.patch applied; before the patch the three operations enqueued
+  first and `$block()` checked afterwards — see the section "repaired defects" of GV.Props.C11.)
+
+  One channel is enough.  Goroutine identities: `none` is `$noGoroutine` (a plain object, NOT a function), `some g` a
+  goroutine.  Queue entries created by a `$select` carry the id of that select: when one of them fires it removes its
+  siblings from the queues (`removeFromQueues`).  The full channel/scheduler model (`$close`, timers, several channels)
+  is C03's `GV.Model.Chan`.
 -/
 namespace GV.CbGuard
 
 abbrev Gid := Option Nat
 
+/-- a `$sendQueue` entry: `closed => { …; $schedule(thisGoroutine); return value; }` -/
+structure SendE where
+  g : Gid
+  v : Nat
+  sel : Option Nat
+  deriving DecidableEq, Repr
+
+/-- a `$recvQueue` entry: `v => { f.value = v; $schedule(thisGoroutine); }` -/
+structure RecvE where
+  g : Gid
+  sel : Option Nat
+  deriving DecidableEq, Repr
+
 structure Chan where
   buffer : List Nat
   capacity : Nat
-  sendQ : List (Gid × Nat)      -- closures `closed => { …; $schedule(thisGoroutine); return value; }`
-  recvQ : List Gid              -- closures `v => { f.value = v; $schedule(thisGoroutine); }`
+  sendQ : List SendE
+  recvQ : List RecvE
   closed : Bool
   deriving DecidableEq, Repr
 
@@ -30,13 +48,17 @@ structure St where
   scheduled : List Gid          -- `$scheduled`
   asleep : List Nat             -- goroutines whose `.asleep` is true
   awake : Nat                   -- `$awakeGoroutines`
-  delivered : List (Gid × Nat)  -- `f.value` of woken receivers
+  delivered : List (Gid × Nat)  -- `f.value` / `f.selection` of woken receivers
+  nextSel : Nat                 -- number of blocking selects so far (identity of their entry groups)
   deriving DecidableEq, Repr
 
 inductive Out where
   | done                        -- the operation completed without blocking
   | value (v : Nat)             -- a receive completed with `[v, true]`
   | zero                        -- a receive on a closed channel: `[zero, false]`
+  | selected (i : Nat)          -- `$select` returned `[i]`
+  | selectedValue (i v : Nat)   -- `$select` returned `[i, [v, true]]`
+  | selectedZero (i : Nat)      -- `$select` returned `[i, [zero, false]]`
   | blocked                     -- `$block()` put the goroutine to sleep
   | errCannotBlock              -- runtime error "cannot block in JavaScript callback, fix by wrapping code in goroutine"
   | errSendClosed               -- runtime error "send on closed channel"
@@ -47,19 +69,19 @@ inductive Out where
 
 def init (capacity : Nat) : St :=
   { chan := { buffer := [], capacity := capacity, sendQ := [], recvQ := [], closed := false },
-    cur := none, scheduled := [], asleep := [], awake := 0, delivered := [] }
+    cur := none, scheduled := [], asleep := [], awake := 0, delivered := [], nextSel := 0 }
 
-/-- goroutines.js:174-198 the `while ((r = $scheduled.shift()) !== undefined) { r(); … }` loop of `$runScheduled`
-    (clock frozen, so the 4 ms break never triggers; resumed goroutines are not followed any further here):
-    returns whether `r()` threw `TypeError: r is not a function`, and what is left of the queue. -/
+/-- the `while ((r = $scheduled.shift()) !== undefined) { r(); … }` loop of `$runScheduled` (clock frozen, so the 4 ms
+    break never triggers; resumed goroutines are not followed any further here): returns whether `r()` threw
+    `TypeError: r is not a function`, and what is left of the queue. -/
 def drain : List Gid → Bool × List Gid
   | [] => (false, [])
   | none :: rest => (true, rest)
   | some _ :: rest => drain rest
 
-/-- goroutines.js:200-208 `$schedule(goroutine)`: `if (goroutine.asleep) { goroutine.asleep = false; $awakeGoroutines++; }
+/-- `$schedule(goroutine)`: `if (goroutine.asleep) { goroutine.asleep = false; $awakeGoroutines++; }
     $scheduled.push(goroutine); if ($curGoroutine === $noGoroutine) { $runScheduled(); }` — `$noGoroutine.asleep` is
-    `false` (:124), so it is pushed as it is.  The Boolean says whether the immediate `$runScheduled()` threw. -/
+    `false`, so it would be pushed as it is.  The Boolean says whether the immediate `$runScheduled()` threw. -/
 def schedule (s : St) (g : Gid) : Bool × St :=
   let s1 : St :=
     match g with
@@ -72,49 +94,106 @@ def schedule (s : St) (g : Gid) : Bool × St :=
   | none => let d := drain s1.scheduled; (d.1, { s1 with scheduled := d.2 })
   | some _ => (false, s1)
 
-/-- goroutines.js:216-221 `$block` -/
+/-- `removeFromQueues()` of a select: drop every entry of that select from both queues -/
+def removeSel (c : Chan) (sel : Option Nat) : Chan :=
+  match sel with
+  | none => c
+  | some k => { c with sendQ := c.sendQ.filter (·.sel ≠ some k), recvQ := c.recvQ.filter (·.sel ≠ some k) }
+
+/-- `$checkCanBlock` — the guard -/
+def canBlock (s : St) : Bool := s.cur.isSome
+
+/-- `$block` (reached only after `$checkCanBlock` succeeded) -/
 def block (s : St) : Out × St :=
   match s.cur with
   | none => (.errCannotBlock, s)
   | some g => (.blocked, { s with asleep := g :: s.asleep, awake := s.awake - 1 })
 
-/-- goroutines.js:229-257 `$send(chan, value)` -/
+/-- `$send(chan, value)` -/
 def send (s : St) (v : Nat) : Out × St :=
   if s.chan.closed then (.errSendClosed, s)
   else
     match s.chan.recvQ with
-    | r :: rq =>                                         -- :233-237 `queuedRecv([value, true])`
-      let r' := schedule { s with chan := { s.chan with recvQ := rq }, delivered := s.delivered ++ [(r, v)] } r
+    | r :: rq =>                                         -- `queuedRecv([value, true])`
+      let r' := schedule { s with chan := removeSel { s.chan with recvQ := rq } r.sel, delivered := s.delivered ++ [(r.g, v)] } r.g
       (if r'.1 then .typeErrorNotAFunction else .done, r'.2)
     | [] =>
-      if s.chan.buffer.length < s.chan.capacity then     -- :238-241
+      if s.chan.buffer.length < s.chan.capacity then
         (.done, { s with chan := { s.chan with buffer := s.chan.buffer ++ [v] } })
-      else
-        -- :243-249 `chan.$sendQueue.push(closed => {…})` — and only then :250 `$block()`
-        block { s with chan := { s.chan with sendQ := s.chan.sendQ ++ [(s.cur, v)] } }
+      else if !canBlock s then (.errCannotBlock, s)      -- `$checkCanBlock()` BEFORE the entry is pushed
+      else block { s with chan := { s.chan with sendQ := s.chan.sendQ ++ [⟨s.cur, v, none⟩] } }
 
-/-- goroutines.js:258-282 `$recv(chan)` -/
+/-- the first half of `$recv`: `queuedSend = chan.$sendQueue.shift(); if (…) chan.$buffer.push(queuedSend(false));` — the
+    entry calls `$schedule(thisGoroutine)` before it returns the value; if that throws, the value is never pushed -/
+def pullSender (s : St) : Bool × St :=
+  match s.chan.sendQ with
+  | e :: sq =>
+    let r := schedule { s with chan := removeSel { s.chan with sendQ := sq } e.sel } e.g
+    if r.1 then (true, r.2)
+    else (false, { r.2 with chan := { r.2.chan with buffer := r.2.chan.buffer ++ [e.v] } })
+  | [] => (false, s)
+
+/-- `$recv(chan)` -/
 def recv (s : St) : Out × St :=
-  -- :259-262 `queuedSend = chan.$sendQueue.shift(); if (…) chan.$buffer.push(queuedSend(false));` — the entry calls
-  -- `$schedule(thisGoroutine)` before it returns the value; if that throws, the value is never pushed
-  let r1 : Bool × St :=
-    match s.chan.sendQ with
-    | (g, v) :: sq =>
-      let r := schedule { s with chan := { s.chan with sendQ := sq } } g
-      if r.1 then (true, r.2)
-      else (false, { r.2 with chan := { r.2.chan with buffer := r.2.chan.buffer ++ [v] } })
-    | [] => (false, s)
+  let r1 := pullSender s
   if r1.1 then (.typeErrorNotAFunction, r1.2) else
   let s1 := r1.2
   match s1.chan.buffer with
-  | b :: bs => (.value b, { s1 with chan := { s1.chan with buffer := bs } })   -- :263-266
+  | b :: bs => (.value b, { s1 with chan := { s1.chan with buffer := bs } })
   | [] =>
-    if s1.chan.closed then (.zero, s1)                   -- :267-269
-    else
-      -- :271-279 `chan.$recvQueue.push(queueEntry)` — and only then :280 `$block()`
-      block { s1 with chan := { s1.chan with recvQ := s1.chan.recvQ ++ [s1.cur] } }
+    if s1.chan.closed then (.zero, s1)
+    else if !canBlock s1 then (.errCannotBlock, s1)      -- `$checkCanBlock()` BEFORE the entry is pushed
+    else block { s1 with chan := { s1.chan with recvQ := s1.chan.recvQ ++ [⟨s1.cur, none⟩] } }
 
-/-- goroutines.js:182-184 one iteration of `$runScheduled`: `r = $scheduled.shift(); r();` -/
+/-- the cases of a `$select` on the one channel -/
+inductive Case where
+  | send (v : Nat)
+  | recv
+  | dflt
+  deriving DecidableEq, Repr
+
+/-- is case `c` ready? (`$select`, first loop) -/
+def ready (s : St) : Case → Bool
+  | .recv => !s.chan.sendQ.isEmpty || !s.chan.buffer.isEmpty || s.chan.closed
+  | .send _ => !s.chan.recvQ.isEmpty || s.chan.buffer.length < s.chan.capacity
+  | .dflt => false
+
+def readyIdx (s : St) (cs : List Case) : List Nat :=
+  (List.range cs.length).filter (fun i => match cs[i]? with | some c => ready s c | none => false)
+
+def dfltIdx (cs : List Case) : Option Nat :=
+  ((List.range cs.length).filter (fun i => cs[i]? == some Case.dflt)).getLast?
+
+/-- the entries a blocking select pushes, in case order -/
+def pushEntries (c : Chan) (g : Gid) (k : Nat) : List Case → Chan
+  | [] => c
+  | .send v :: r => pushEntries { c with sendQ := c.sendQ ++ [⟨g, v, some k⟩] } g k r
+  | .recv :: r => pushEntries { c with recvQ := c.recvQ ++ [⟨g, some k⟩] } g k r
+  | .dflt :: r => pushEntries c g k r
+
+/-- `$select(comms)`; `pick` stands for `Math.random()`: the chosen ready case is `ready[⌊(2·pick+1)·n / 24⌋]` -/
+def select (s : St) (cs : List Case) (pick : Nat) : Out × St :=
+  if s.chan.closed && cs.any (fun c => match c with | .send _ => true | _ => false) then (.errSendClosed, s)
+  else
+    let rd := readyIdx s cs
+    let choice : Option Nat :=
+      if rd.isEmpty then dfltIdx cs else rd[((2 * pick + 1) * rd.length) / 24]?
+    match choice with
+    | some i =>
+      match cs[i]? with
+      | some (.send v) => let r := send s v; (if r.1 = .done then .selected i else r.1, r.2)
+      | some .recv =>
+        let r := recv s
+        (match r.1 with
+          | .value b => .selectedValue i b
+          | .zero => .selectedZero i
+          | o => o, r.2)
+      | _ => (.selected i, s)
+    | none =>
+      if !canBlock s then (.errCannotBlock, s)           -- `$checkCanBlock()` BEFORE any entry is pushed
+      else block { s with chan := pushEntries s.chan s.cur s.nextSel cs, nextSel := s.nextSel + 1 }
+
+/-- one iteration of `$runScheduled`: `r = $scheduled.shift(); r();` -/
 def dequeue (s : St) : Out × St :=
   match s.scheduled with
   | [] => (.idle, s)
@@ -122,26 +201,37 @@ def dequeue (s : St) : Out × St :=
   | some g :: rest => (.resumed g, { s with scheduled := rest })
 
 /-- events: an operation executed as goroutine `g` (`none` = inside a JavaScript callback); `$curGoroutine` is
-    reset to `$noGoroutine` afterwards (goroutines.js:149) -/
+    reset to `$noGoroutine` afterwards -/
 inductive Ev where
   | send (g : Gid) (v : Nat)
   | recv (g : Gid)
+  | select (g : Gid) (pick : Nat) (cs : List Case)
   | dequeue
   deriving DecidableEq, Repr
 
 def step (s : St) : Ev → Out × St
   | .send g v => let r := send { s with cur := g } v; (r.1, { r.2 with cur := none })
   | .recv g => let r := recv { s with cur := g }; (r.1, { r.2 with cur := none })
+  | .select g pick cs => let r := select { s with cur := g } cs pick; (r.1, { r.2 with cur := none })
   | .dequeue => dequeue s
 
 def run : St → List Ev → List Out × St
   | s, [] => ([], s)
   | s, e :: es => let r := step s e; let rr := run r.2 es; (r.1 :: rr.1, rr.2)
 
-/-- a send would have to block: channel open, no waiting receiver, buffer full -/
-abbrev sendBlocks (s : St) : Prop := s.chan.closed = false ∧ s.chan.recvQ = [] ∧ ¬ s.chan.buffer.length < s.chan.capacity
+/-! ### the scheme before fixes/C11-callback-guard.patch (kept to state what was wrong) -/
 
-/-- a receive would have to block: nothing queued or buffered, channel open -/
-abbrev recvBlocks (s : St) : Prop := s.chan.sendQ = [] ∧ s.chan.buffer = [] ∧ s.chan.closed = false
+/-- `$send` as it was: the entry is pushed first, `$block()` checks afterwards -/
+def sendOld (s : St) (v : Nat) : Out × St :=
+  if s.chan.closed then (.errSendClosed, s)
+  else
+    match s.chan.recvQ with
+    | r :: rq =>
+      let r' := schedule { s with chan := removeSel { s.chan with recvQ := rq } r.sel, delivered := s.delivered ++ [(r.g, v)] } r.g
+      (if r'.1 then .typeErrorNotAFunction else .done, r'.2)
+    | [] =>
+      if s.chan.buffer.length < s.chan.capacity then
+        (.done, { s with chan := { s.chan with buffer := s.chan.buffer ++ [v] } })
+      else block { s with chan := { s.chan with sendQ := s.chan.sendQ ++ [⟨s.cur, v, none⟩] } }
 
 end GV.CbGuard
